@@ -7,3 +7,5 @@ CONSTANT NRand = 200
 CONSTANT RandLen = 40
 CHECK_DEADLOCK FALSE
 CONSTANT InFile = "texts.ndjson"
+CONSTANT NCatTexts = 4
+CONSTANT NCat = 50
